@@ -69,6 +69,7 @@ func c14runOp(o c14op, out *[]c14obs) {
 		// scheduling point, so the calls that follow interleave freely (a thread may be held up for any
 		// length of time between two of its operations) instead of in the order their costs dictate
 		vsched.Cur().LoadCost = 0
+		vsched.Cur().Free = true
 	case 'L', 'Q':
 		re := regexp2.MustCompile(`(a+)+$`)
 		in := c14long
@@ -95,6 +96,7 @@ func c14exec(hists [][]c14op, P time.Duration, prefix []int, jitter int64, verbo
 	regexp2.VerifResetWorld(P)
 	s := vsched.New(prefix)
 	s.Jitter = jitter
+	s.TimeDev = true // only threads switched to free mode (op Z) ever offer it
 	s.Verbose = verbose
 	obs := make([][]c14obs, len(hists))
 	for i := range hists {
@@ -156,14 +158,11 @@ func c14check(obs [][]c14obs, P time.Duration, jitter int64) (verdict, harness s
 					return fmt.Sprintf("%v timed out after %.3fms of virtual time, allowed window [%.3f, %.3f]ms", ob.op, float64(el)/1e6, float64(lo)/1e6, float64(hi)/1e6), ""
 				}
 			case 'Q':
-				if ob.timedOut {
-					if el > d/4 {
-						return "", fmt.Sprintf("quick op %v took %.3fms of virtual time before it timed out; the scenario does not keep it well inside d", ob.op, float64(el)/1e6)
-					}
-					return fmt.Sprintf("%v (a match that finishes well inside d) reported a timeout after %.3fms", ob.op, float64(el)/1e6), ""
-				}
-				if el > d/4 {
-					return "", fmt.Sprintf("quick op %v took %.3fms of virtual time", ob.op, float64(el)/1e6)
+				// a match that would finish at once: a timeout is only legitimate once d has (all but) elapsed,
+				// which happens when the thread was held up that long (free mode); otherwise it is a false timeout
+				lo := d - jitter - 2*c14Tick
+				if ob.timedOut && el < lo {
+					return fmt.Sprintf("%v (a match that finishes at once) reported a timeout after %.3fms of virtual time, before d", ob.op, float64(el)/1e6), ""
 				}
 			}
 		}
@@ -280,15 +279,47 @@ func c14Scenarios(tier string) []schedScenario {
 				if thorough {
 					pb = 3
 				}
+				// two budgets: many preemptions without hold deviations, and one hold deviation with fewer preemptions
 				mk(fmt.Sprintf("stale+free P=4ms: %v || %v", a, b), [][]c14op{a, b}, 4*time.Millisecond, pb, 0, 0)
+				mk(fmt.Sprintf("stale+free+hold P=4ms: %v || %v", a, b), [][]c14op{a, b}, 4*time.Millisecond, pb-1, 1, 0)
 				if thorough {
 					b2 := append(append([]c14op{}, b...), c14op{'Q', da})
 					mk(fmt.Sprintf("stale+free P=4ms: %v || %v", a, b2), [][]c14op{a, b2}, 4*time.Millisecond, 2, 0, 0)
+					mk(fmt.Sprintf("stale+free+hold P=4ms: %v || %v", a, b2), [][]c14op{a, b2}, 4*time.Millisecond, 1, 1, 0)
 				}
 			}
 		}
 	}
-	// zero-cost mode: two clients start together, every shim operation is a pure scheduling point
+	// clock about to stop, free interleaving: the client comes back around the instant at which the clock goroutine
+	// decides to exit (1 s of slop after the last deadline); in free mode, and with the "held up until the next
+	// timer event" deviation, its clock operations interleave with the clock goroutine's last iterations
+	for k := 0; k <= 10; k++ {
+		idle := time.Second + time.Duration(k)*4*time.Millisecond
+		for _, d := range []time.Duration{d1, d2} {
+			a := []c14op{{'Q', d1}, {'I', idle}, {'Z', 0}, {'Q', d}}
+			pb, dbf := 2, 1
+			if thorough {
+				pb, dbf = 3, 2
+			}
+			mk(fmt.Sprintf("exit+free P=4ms: %v", a), [][]c14op{a}, 4*time.Millisecond, pb, dbf, 0)
+			if thorough || k%2 == 0 {
+				b := []c14op{{'I', idle + 4*time.Millisecond}, {'Z', 0}, {'Q', d1}}
+				mk(fmt.Sprintf("exit+free P=4ms: %v || %v", a, b), [][]c14op{a, b}, 4*time.Millisecond, 2, 1, 0)
+			}
+		}
+	}
+	// free mode from the start: two clients start together, every shim operation is a pure scheduling point
+	for _, a := range [][]c14op{{{'Z', 0}, {'Q', d1}}, {{'Z', 0}, {'Q', d1}, {'Q', d2}}} {
+		for _, b := range [][]c14op{{{'Z', 0}, {'Q', d1}}, {{'Z', 0}, {'Q', d2}}, {{'Z', 0}, {'Q', d2}, {'Q', d1}}} {
+			pb := 2
+			if thorough {
+				pb = 3
+			}
+			mk(fmt.Sprintf("together+free P=4ms: %v || %v", a, b), [][]c14op{a, b}, 4*time.Millisecond, pb, 0, 0)
+			mk(fmt.Sprintf("together+free+hold P=4ms: %v || %v", a, b), [][]c14op{a, b}, 4*time.Millisecond, pb-1, 1, 0)
+		}
+	}
+	// two clients start together, every shim operation is a pure scheduling point
 	for _, a := range [][]c14op{{{'Q', d1}}, {{'L', d1}}, {{'Q', d1}, {'Q', d2}}} {
 		for _, b := range [][]c14op{{{'Q', d1}}, {{'Q', d2}}, {{'L', d2}}} {
 			pb := 1
